@@ -172,6 +172,30 @@ func checkC16(c *Ctx) {
 	close(jobs)
 	wg.Wait()
 	c.Set("context_programs", nb)
+	// two overlapping EncodeEntry calls on one encoder value, interleaved column by column
+	c.MustTLC(TLCOpts{Module: "ConsoleOverlap", Cfg: "ConsoleOverlap.check"})
+	c.MustTLC(TLCOpts{Module: "ConsoleOverlap", Cfg: "ConsoleOverlap.check", Consts: map[string]string{"Scratch": `"per-encoder"`}, ExpectViolation: true})
+	nov := 0
+	c.MustTLC(TLCOpts{Module: "ConsoleOverlap", Cfg: "ConsoleOverlap.check", Gen: true, Workers: 1, Consts: map[string]string{"Emit": "TRUE"}, OnBeh: func(raw json.RawMessage) {
+		var b struct {
+			Sched [][2]interface{} `json:"sched"`
+		}
+		if err := json.Unmarshal(raw, &b); err != nil || c.Saturated() {
+			return
+		}
+		nov++
+		key, what, inc := replayConsoleOverlap(b.Sched)
+		if inc != "" {
+			c.Add("schedules_not_followed", 1)
+			c.Note("console overlap schedule not followed: %s", inc)
+			return
+		}
+		if key != "" {
+			c.Violation(key, what, map[string]interface{}{"overlap": b.Sched})
+		}
+		c.Add("traces_validated_against_impl", 1)
+	}})
+	c.Set("overlap_schedules", int64(nov))
 	c.Set("exhaustive", true)
 	c.Set("rule", "every configuration of the listed Console.tla families (thorough: the full 2M product) x 3 seeded concretisations; every JsonEnc.tla program (Spaced) up to the bound as console context x 2 concretisations")
 }
@@ -426,4 +450,70 @@ func stripJSONSpaces(b []byte) string {
 		out = append(out, c)
 	}
 	return string(out)
+}
+
+// replayConsoleOverlap forces one column-by-column interleaving of two EncodeEntry calls on one encoder.
+func replayConsoleOverlap(sched [][2]interface{}) (key, what, inconclusive string) {
+	gt := NewGate()
+	defer gt.Drain()
+	cfg := zapcore.EncoderConfig{TimeKey: "T", LevelKey: "L", NameKey: "N", CallerKey: "C", MessageKey: "M",
+		EncodeTime:   func(t time.Time, e zapcore.PrimitiveArrayEncoder) { gt.At("time", 0, 0); e.AppendString(t.UTC().Format("2006")) },
+		EncodeLevel:  func(l zapcore.Level, e zapcore.PrimitiveArrayEncoder) { gt.At("level", 0, 0); e.AppendString(l.CapitalString()) },
+		EncodeName:   func(n string, e zapcore.PrimitiveArrayEncoder) { gt.At("name", 0, 0); e.AppendString(n) },
+		EncodeCaller: func(c zapcore.EntryCaller, e zapcore.PrimitiveArrayEncoder) { gt.At("caller", 0, 0); e.AppendString(c.TrimmedPath()) },
+	}
+	enc := zapcore.NewConsoleEncoder(cfg)
+	ents := map[string]zapcore.Entry{
+		"1": {Level: zapcore.ErrorLevel, Time: time.Date(2020, 1, 1, 0, 0, 0, 0, time.UTC), LoggerName: "first", Message: "slow", Caller: zapcore.EntryCaller{Defined: true, File: "/a/one.go", Line: 1}},
+		"2": {Level: zapcore.InfoLevel, Time: time.Date(2021, 1, 1, 0, 0, 0, 0, time.UTC), LoggerName: "second", Message: "fast", Caller: zapcore.EntryCaller{Defined: true, File: "/b/two.go", Line: 2}},
+	}
+	want := map[string]string{"1": "2020\tERROR\tfirst\ta/one.go:1\tslow\n", "2": "2021\tINFO\tsecond\tb/two.go:2\tfast\n"}
+	got := map[string]string{}
+	var mu sync.Mutex
+	for p, e := range ents {
+		p, e := p, e
+		gt.Go(p, func() {
+			defer func() {
+				if r := recover(); r != nil {
+					mu.Lock()
+					got[p] = fmt.Sprintf("PANIC %v", r)
+					mu.Unlock()
+				}
+			}()
+			buf, err := enc.EncodeEntry(e, nil)
+			mu.Lock()
+			if err != nil {
+				got[p] = "ERROR " + err.Error()
+			} else {
+				got[p] = buf.String()
+				buf.Free()
+			}
+			mu.Unlock()
+		})
+	}
+	for _, st := range sched {
+		p, col := fmt.Sprint(st[0]), fmt.Sprint(st[1])
+		if col == "join" {
+			continue
+		}
+		if s, _ := gt.WaitParked(p, 3*time.Second, col); s != col {
+			inconclusive = fmt.Sprintf("process %s expected at the %s sub-encoder, found %q", p, col, s)
+			break
+		}
+		gt.Release(p)
+	}
+	gt.Drain()
+	for p := range ents {
+		if !gt.WaitDone(p, 1, 5*time.Second) {
+			return "", "", "EncodeEntry did not return"
+		}
+	}
+	mu.Lock()
+	defer mu.Unlock()
+	for p := range ents {
+		if got[p] != want[p] {
+			return "C16/overlap", fmt.Sprintf("two EncodeEntry calls overlapping on one console encoder (order of column steps %v): entry %s came out as %q, alone it is %q", sched, p, got[p], want[p]), ""
+		}
+	}
+	return "", "", inconclusive
 }
